@@ -173,6 +173,23 @@ class C14(Prop):
                         frag, n, impl.cj(got)[:80], impl.cj(want)[:80]))
                     break
             del tmp
+        # ... and a run of small documents that live only for one call each (what a handler with caching off produces):
+        # CPython hands the freed memory to the next one, so anything remembered by address would answer for the wrong one
+        first_key = next((k for k in doc if isinstance(k, str)), None) if isinstance(doc, dict) else None
+        if first_key is not None:
+            frag1 = optr.encode([first_key], also)
+            for n in range(6):
+                t = {first_key: "value-%d" % n}
+                try:
+                    got = resolver.resolve_fragment(t, frag1)
+                except Exception as e:
+                    res.fail(("short-lived-document", "raises", impl.tname(e)), "fragment %r: %r" % (frag1, e))
+                    break
+                if got != "value-%d" % n:
+                    res.fail(("short-lived-document", "stale-value"), "document %d of a run of short-lived documents {%r: 'value-%d'}: "
+                             "fragment %r returned %r" % (n, first_key, n, frag1, got))
+                    break
+                del t, got
         # end-to-end: a schema document whose definitions are the drawn document's subschema-like members
         d = case.get("draft", 7)
         if d != 3:
